@@ -10,7 +10,8 @@ RULE = ("one case = one runtime incarnation (policy x workers) running hundreds 
         "each access sender is started at once / later / from a pool task / from an OS thread, or dropped unstarted; bodies run "
         "inline or after continues_on; wrappers are released at once, held and released on another task / OS thread, or (readers) "
         "copied 1-3 times with the copies released on different threads; the mutex is destroyed before the accesses in half of the "
-        "sequences; distinct = (flavour, configuration, type, path-bit signature); non-trivial = dropped request / start from OS "
+        "sequences; race cases: 10^6 rounds in which one OS thread releases the only wrapper of an access at the same instant (spin "
+        "barrier, swept skew) at which another starts the following access(es) {write; read; read,read; read,write}; distinct = (flavour, configuration, type, path-bit signature); non-trivial = dropped request / start from OS "
         "thread / late start / wrapper copies / release on another thread / early mutex destruction / overlapping readers observed")
 ATTR = r"async_rw_mutex\.hpp|c04_rwmutex"
 
@@ -30,6 +31,14 @@ def cases(tier, seed):
                                 ["--scheduler=" + pol, "--threads=%d" % w, "--type=" + typ, "--sequences=%d" % (600 if not big else 3000),
                                  "--maxlen=%d" % (60 if not big else 200), "--perturb=" + rnd.choice(["light", "none"]),
                                  "--seed=%d" % (seed * 1000 + n)], cls="%s:%s" % (typ, pol), slots=w + 3, timeout=600))
+    # release of the last wrapper racing with the start of the following access(es), two aligned OS threads, swept skew
+    for k in range(3 if not big else 12):
+        n += 1
+        out.append(Case("plain", "c04_rwmutex", ["--threads=%d" % [2, 4, 8][k % 3], "--mode=race", "--rounds=%d" % (1000000 if not big else 5000000), "--perturb=none",
+                                                  "--seed=%d" % (seed * 1000 + n)], cls="race", slots=4, timeout=600))
+    n += 1
+    out.append(Case("tsan", "c04_rwmutex", ["--threads=2", "--mode=race", "--rounds=%d" % (60000 if not big else 400000), "--perturb=none", "--bind=1",
+                                             "--seed=%d" % (seed * 1000 + n)], cls="race:tsan", slots=4, timeout=900))
     for fl in ("tsan", "asan"):
         for typ in ("value", "void") if big else ("value",):
             n += 1
@@ -44,6 +53,6 @@ def run(tier, seed):
     outs = run_cases("C04", cases(tier, seed), attribute=ATTR)
     return finish("C04", tier, seed, t0, outs, RULE,
                   required_bits=["dropped_unstarted", "started_from_os_thread", "started_later", "read_wrapper_copies",
-                                 "released_on_other_thread", "mutex_destroyed_early", "readers_overlapped"],
+                                 "released_on_other_thread", "mutex_destroyed_early", "readers_overlapped", "race_release_vs_start"],
                   assumptions=["requests are retrieved from one thread (API contract)", "release stamps are taken just before the wrapper "
                                "is destroyed and grant stamps just after the grant, so an order violation seen in the log is real"])
